@@ -1,49 +1,45 @@
 /-
-C20 — the lock-discipline hypothesis of `C20_conc`, discharged from the table the fact extractor regenerates from
-`core/logging/inmemory_logger.go` on every run (`Verif/Gen/LockFacts.lean`), and the capacity from `Gen/Constants`.
-If the code stops taking the shared mutex around a ring access, or a derived core stops sharing mutex or cursor,
-`decide` fails here and the check reports the obligation as broken.
+C20 — the lock-discipline hypothesis of `C20_conc`, discharged from the per-access table that `go/ringfacts`
+regenerates from `core/logging` on every run (`Verif/Gen/RingFacts.lean`), and the capacity from `Gen/Constants`.
+
+The facts are stated over *accesses*, not over the shape of the methods: whichever function of the package touches the
+ring cursor or a ring slot, under whichever name, must do so with the one shared mutex held (write mode for writes, any
+mode for reads); what is stored in a slot must be freshly allocated by that call; nothing read out of a slot may be
+modified; cores derived from a core share its mutex.  A rewrite that keeps this (explicit unlock instead of `defer`,
+helpers called with the lock held, renamed fields, the entry built before the lock) keeps `decide` succeeding; code
+that walks the ring after unlocking, reuses a slot's entry object or gives a derived core its own mutex makes it fail.
 -/
 import Verif.Props.C20
-import Verif.Gen.LockFacts
+import Verif.Gen.RingFacts
 import Verif.Gen.Constants
 namespace Verif.Props.C20
 open Verif.Ring Verif.RingMutex
 open Verif.Gen
 
-/-- the method takes the exclusive lock of `mutex` as the first thing that touches shared state and releases it by
-`defer`: every recorded access to a receiver field happens under that write lock, except plain reads of the fields in
-`immutable` (fields no method ever assigns) -/
-def holdsExclusive (m : LockFacts.Method) (mutex : String) (immutable : List String) : Bool :=
-  m.lock == .write && m.mutex == mutex && m.deferred && m.postStmts == 0 && !m.reentrant &&
-  m.goroutines.isEmpty &&
-  m.accesses.all (fun a => a.mode == .write || (a.kind == .read && immutable.contains a.field))
-
-/-- how the literal returned by `clone` fills a field -/
-def cloneField (f : String) : Option (String × LockFacts.LitSrc) :=
-  (LockFacts.memCore_clone.literal.find? (fun l => l.field == f)).map (fun l => (l.expr, l.src))
-
 /-- the lock facts of the code in the working tree -/
 def codeFacts : LockFacts where
-  write_holds_mu := holdsExclusive LockFacts.memCore_Write "mu" [] && LockFacts.memCore_Write.preStmts == 0
-  getLogs_holds_mu :=
-    -- `MemLogger.core` is assigned only by `NewMemLogger`; the statements before the lock read nothing else
-    holdsExclusive LockFacts.memLogger_GetLogs "core.mu" ["core"]
+  write_holds_mu :=
+    (RingFacts.uses.all fun u => !u.write || u.held == .write) &&
+    (RingFacts.stores.all fun s => s.fresh) &&
+    RingFacts.mutations.isEmpty
+  getLogs_holds_mu := RingFacts.uses.all fun u => u.write || u.held != .none
   clone_holds_mu :=
-    holdsExclusive LockFacts.memCore_clone "mu" [] && LockFacts.memCore_clone.preStmts == 0 &&
-    -- `With` reaches ring state (`r`, `cur`) only through `clone`
-    LockFacts.memCore_With.accesses.all (fun a => (a.field != "r" && a.field != "cur") || a.via == "clone")
+    RingFacts.unknowns.isEmpty &&
+    (RingFacts.uses.any fun u => u.write && u.what == "slot") &&
+    (RingFacts.uses.any fun u => u.what == "walk") &&
+    !RingFacts.stores.isEmpty
   derived_shares_mu :=
-    cloneField "mu" == some ("mc.mu", .sameField) &&
-    cloneField "cur" == some ("mc.cursor()", .recvCall) &&
-    cloneField "r" == some ("mc.r", .sameField) &&
-    LockFacts.memCoreInfo.mutexes == ["mu"]
+    RingFacts.mutexFields == 1 &&
+    (RingFacts.coreLiterals.all fun l =>
+      if l.fromExistingCore then l.mutexFrom == "shared" else l.mutexFrom == "fresh") &&
+    (RingFacts.coreLiterals.any fun l => !l.fromExistingCore)
 
 /-- the extracted facts are the ones `C20_conc` needs -/
 theorem C20_lock_facts_hold : codeFacts.ok = true := by decide
 
-/-- the capacity in the source is positive (and is the 1024 the correspondence run uses) -/
-theorem C20_capacity : 0 < Constants.bufferSize ∧ Constants.bufferSize = 1024 := by decide
+/-- the capacity in the source is positive (its value is the maintainers' choice; suites and model driver take it from
+the source) -/
+theorem C20_capacity : 0 < Constants.bufferSize := by decide
 
 /-- `C20_conc` for the code as it is: every finished concurrent execution of calls on one `MemLogger` is a
 sequential history, and every `GetLogs` returned the `BufferSize` newest entries of it, newest first. -/
@@ -55,6 +51,6 @@ theorem C20_conc_code {ε : Type} (progs : Nat → List (COp ε)) (sched : List 
         = crun (init Constants.bufferSize, []) (lin.map (·.2)) ∧
       (exec (sem codeFacts) (start (init Constants.bufferSize, []) progs) sched).shared.2
         = (specRun Constants.bufferSize (Spec.init, []) (lin.map (·.2))).2 :=
-  C20_conc codeFacts C20_lock_facts_hold Constants.bufferSize C20_capacity.1 progs sched hfin
+  C20_conc codeFacts C20_lock_facts_hold Constants.bufferSize C20_capacity progs sched hfin
 
 end Verif.Props.C20
